@@ -22,6 +22,18 @@ CHECKS = {
         technique="Coq proof (induction over event lists, Q arithmetic) + differential "
                   "correspondence evaluated by vm_compute",
         design_ref="DESIGN.md section 6/C20"),
+    'C16': dict(
+        text="Theorems (Props/C16.v): composition law of the filter pipeline over every split "
+             "point (first false ends it, a mapping replaces the data, any other true value passes "
+             "it on), complete Edge truth table for all flags and values, not_from_undef, Delta "
+             "(pass list satisfies and is uniquely determined by the 'differs from the last PASSED "
+             "value by >= delta' spec, for all sequences), IfOutput/NotIfInitialized, extensional "
+             "dictionary specs of all 8 DataEdit operations and the chain law. Tie: every case goes "
+             "through the real Event.send into a probe block; coqc evaluates the model on the same "
+             "filters/data and compares delivered data / rejection / exception class.",
+        technique="Coq proof (list induction, association-list lemmas) + differential "
+                  "correspondence evaluated by vm_compute; exhaustive Edge table",
+        design_ref="DESIGN.md section 6/C16"),
 }
 
 NOT_YET = "check not built yet in this round (planned: Coq model + theorems + correspondence, see DESIGN.md section 6)"
